@@ -3,6 +3,7 @@ package main
 // Rules added after seeded changes showed gaps (DESIGN.md §6 lists which seed led to which rule).
 
 import (
+	"os"
 	"fmt"
 	"go/constant"
 	"go/token"
@@ -351,5 +352,336 @@ func ruleTypePrefixDelimited(e *Engine, r *Reporter) {
 				r.Check(ok2, fmt.Sprintf("%s | HasPrefix #%d", fname(top), ordinalIn(top, c)), e.instrPos(c), "prefix ends with ':'", "type filter compared as a bare string prefix ("+describe_(p)+"): a filter for type 'user' also matches 'userset:…' and 'user_group:…'")
 			}
 		}
+	}
+}
+
+// ruleUserIdentityByParts: the sqlite schema stores a tuple's user in three columns.  A statement that pins the user's
+// object id (a complete user, not a type prefix) must pin user_relation as well — '' for a plain object — whenever it
+// pins the id; otherwise a filter for `group:eng` also matches `group:eng#member` rows, which the _user-string
+// backends (mysql, postgres, memory) do not.
+func ruleUserIdentityByParts(e *Engine, r *Reporter) {
+	r.Rule("user-identity-by-parts-complete", "every sqlite tuple statement that constrains user_object_id also constrains user_relation under the same (or weaker) conditions", 3)
+	n := 0
+	for _, fn := range e.Fns {
+		if short(pkgOf(fn)) != "pkg/storage/sqlite" || fn.Parent() != nil {
+			continue
+		}
+		for _, st := range e.sqlStmtsDeep(fn, 0) {
+			if table(st) != "tuple" || st.Top != fn {
+				continue
+			}
+			type occ struct {
+				guards []string
+				text   string
+			}
+			var ids, rels []occ
+			var collect func(text string, guards []string)
+			collect = func(text string, guards []string) {
+				// predicates render as Eq{k=v, …} [if guard…]; nested And[...]/Or[...] lists are split on "; "
+				inner := text
+				for _, pre := range []string{"And[", "Or["} {
+					if strings.HasPrefix(inner, pre) && strings.HasSuffix(inner, "]") {
+						for _, el := range strings.Split(inner[len(pre):len(inner)-1], "; ") {
+							collect(el, guards)
+						}
+						return
+					}
+				}
+				g := append([]string{}, guards...)
+				// element-level guard: text after the closing brace
+				if j := strings.LastIndex(inner, "}"); j >= 0 && strings.HasPrefix(inner[j+1:], " if ") {
+					g = append(g, strings.Split(inner[j+5:], "&&")...)
+					inner = inner[:j+1]
+				}
+				if k := strings.Index(inner, "{"); k >= 0 && strings.HasSuffix(inner, "}") {
+					for _, item := range strings.Split(inner[k+1:len(inner)-1], ", ") {
+						ig := append([]string{}, g...)
+						if i := strings.Index(item, " if "); i >= 0 {
+							ig = append(ig, strings.Split(item[i+4:], "&&")...)
+							item = item[:i]
+						}
+						if strings.HasPrefix(item, "user_object_id=") && item != `user_object_id="*"` { // a typed wildcard has no relation
+							ids = append(ids, occ{ig, item})
+						}
+						if strings.HasPrefix(item, "user_relation=") {
+							rels = append(rels, occ{ig, item})
+						}
+					}
+				}
+			}
+			for _, w := range st.Wheres {
+				if os.Getenv("FGA_DEBUG_SQL") != "" {
+					fmt.Fprintf(os.Stderr, "DBG %s: %s | %v\n", fname(fn), w.Text, w.Guards)
+				}
+				collect(w.Text, w.Guards)
+			}
+			if len(ids) == 0 {
+				continue
+			}
+			n++
+			ok := true
+			detail := ""
+			for _, id := range ids {
+				covered := false
+				for _, rl := range rels {
+					if len(diffStrings(rl.guards, id.guards)) == 0 {
+						covered = true
+					}
+				}
+				if !covered {
+					ok = false
+					detail = fmt.Sprintf("user_object_id pinned under %v but user_relation only under %v", id.guards, func() [][]string {
+						var o [][]string
+						for _, rl := range rels {
+							o = append(o, rl.guards)
+						}
+						return o
+					}())
+				}
+			}
+			key := fmt.Sprintf("%s %s tuple #%d", fname(fn), st.Verb, ordinalIn(fn, st.Root))
+			r.Check(ok, key, e.pos(st.Root.Pos()), "user_relation pinned with the id", detail+": a plain-object user filter also matches the usersets of that object ("+oneLine(st.render())+")")
+		}
+	}
+	if n == 0 {
+		blind("user-identity-by-parts-complete: no sqlite tuple statement constrains user_object_id")
+	}
+}
+
+// ruleRowsErrConsulted: database/sql's (and pgx's) Rows.Next returns false both at the end of the result set and
+// when the stream broke; only Rows.Err tells the two apart.  On the false edge of every rows.Next() in the SQL
+// storage packages, each path to a return passes a call of Err on the same rows value: a broken stream is reported,
+// never presented as "iterator done" (the engines would then decide on partial data).
+func ruleRowsErrConsulted(e *Engine, r *Reporter) {
+	r.Rule("rows-err-consulted", "after rows.Next() reports false in a SQL tuple iterator, rows.Err() is consulted before the function returns (a mid-stream failure is not mistaken for the end of the data)", 4)
+	for _, fn := range e.Fns {
+		if !sqlPkgs[pkgOf(fn)] && !sqlPkgs[short(pkgOf(fn))] {
+			continue
+		}
+		// scope: the tuple iterators, whose early "done" makes an engine decide on partial data.  (The same omission in
+		// the paged listings — ReadChanges in the three SQL backends, the first row of
+		// ConstructAuthorizationModelFromSQLRows — yields a shorter page or a spurious not-found, which no property
+		// forbids; those sites were read and are deliberately not claimed.)
+		if fn.Signature.Recv() == nil || !strings.Contains(typeBaseName(fn.Signature.Recv().Type()), "TupleIterator") {
+			continue
+		}
+		ord := 0
+		eachInstr(fn, false, func(in ssa.Instruction) {
+			c, ok := in.(*ssa.Call)
+			if !ok {
+				return
+			}
+			o := calleeObj(c)
+			if o == nil || o.Name() != "Next" || len(c.Call.Args) != 0 && !c.Call.IsInvoke() && len(c.Call.Args) != 1 {
+				return
+			}
+			// receiver must have an Err() error method (sql.Rows, pgx.Rows, the Rows interface of sqlcommon)
+			var recv ssa.Value
+			if c.Call.IsInvoke() {
+				recv = c.Call.Value
+			} else if len(c.Call.Args) > 0 {
+				recv = c.Call.Args[0]
+			}
+			if recv == nil {
+				return
+			}
+			hasErr := false
+			ms := types.NewMethodSet(recv.Type())
+			for i := 0; i < ms.Len(); i++ {
+				if m := ms.At(i).Obj(); m.Name() == "Err" {
+					if sig, ok := m.Type().(*types.Signature); ok && sig.Params().Len() == 0 && sig.Results().Len() == 1 && isErrorType(sig.Results().At(0).Type()) {
+						hasErr = true
+					}
+				}
+			}
+			if !hasErr || !types.Identical(c.Type(), types.Typ[types.Bool]) {
+				return
+			}
+			// the branch on the result
+			var ifi *ssa.If
+			neg := false
+			for _, ref := range *c.Referrers() {
+				switch x := ref.(type) {
+				case *ssa.If:
+					ifi = x
+				case *ssa.UnOp:
+					if x.Op == token.NOT && x.Referrers() != nil {
+						for _, r2 := range *x.Referrers() {
+							if y, ok := r2.(*ssa.If); ok {
+								ifi, neg = y, true
+							}
+						}
+					}
+				}
+			}
+			if ifi == nil {
+				return
+			}
+			falseSucc := ifi.Block().Succs[1]
+			if neg {
+				falseSucc = ifi.Block().Succs[0]
+			}
+			rd := describe_(recv)
+			isErrCall := func(in2 ssa.Instruction) bool {
+				c2, ok := in2.(ssa.CallInstruction)
+				if !ok {
+					return false
+				}
+				o2 := calleeObj(c2)
+				if o2 == nil || o2.Name() != "Err" {
+					return false
+				}
+				var rv ssa.Value
+				if c2.Common().IsInvoke() {
+					rv = c2.Common().Value
+				} else if len(c2.Common().Args) > 0 {
+					rv = c2.Common().Args[0]
+				}
+				return rv != nil && describe_(rv) == rd
+			}
+			// search from the first instruction of the false successor
+			leak := false
+			seen := map[*ssa.BasicBlock]bool{}
+			var walk func(b *ssa.BasicBlock)
+			walk = func(b *ssa.BasicBlock) {
+				if seen[b] || leak {
+					return
+				}
+				seen[b] = true
+				for _, in2 := range b.Instrs {
+					if isErrCall(in2) {
+						return
+					}
+					if _, isRet := in2.(*ssa.Return); isRet {
+						leak = true
+						return
+					}
+				}
+				for _, s := range b.Succs {
+					walk(s)
+				}
+			}
+			walk(falseSucc)
+			key := fmt.Sprintf("%s | %s.Next() #%d", fname(topLevel(fn)), rd, ord)
+			ord++
+			r.Check(!leak, key, e.instrPos(in), "Err() consulted on the end-of-rows path", "after "+rd+".Next() returns false the function can return without calling "+rd+".Err(): a connection reset or statement timeout in the middle of the result set is reported as the normal end of the data")
+		})
+	}
+}
+
+// ruleConditionsPredicateUniform: the Conditions filter of the tuple reads is applied through the same column
+// expression at every site of every SQL backend.  Today that expression folds NULL into '' (rows written before the
+// column was NOT NULL, or imported, carry NULL for "no condition"); a site comparing the raw column treats those
+// tuples as having some other condition and drops them from "unconditioned" reads.
+func ruleConditionsPredicateUniform(e *Engine, r *Reporter) {
+	r.Rule("conditions-predicate-uniform", "every tuple SELECT that filters on filter.Conditions does so through the same column expression in all SQL backends and read methods", 9)
+	type site struct {
+		key, expr, pos string
+	}
+	var sites []site
+	count := map[string]int{}
+	for _, be := range sqlBackends {
+		for _, m := range readMethods {
+			fn := e.FuncOpt("pkg/storage/"+be, "Datastore."+m.impl)
+			if fn == nil {
+				continue
+			}
+			for _, st := range e.sqlStmtsDeep(fn, 1) {
+				if st.Verb != "SELECT" || table(st) != "tuple" {
+					continue
+				}
+				for _, w := range st.Wheres {
+					for k, v := range w.Vals {
+						if strings.HasSuffix(v, ".Conditions") {
+							sites = append(sites, site{be + "." + m.name, k, e.pos(st.Root.Pos())})
+							count[k]++
+						}
+					}
+				}
+			}
+		}
+	}
+	if len(sites) == 0 {
+		blind("conditions-predicate-uniform: no Conditions predicate found")
+	}
+	major, best := "", 0
+	for k, n := range count {
+		if n > best {
+			major, best = k, n
+		}
+	}
+	for _, s := range sites {
+		r.Check(s.expr == major, s.key+" | Conditions column expression", s.pos, s.expr, fmt.Sprintf("this read filters conditions on `%s` while the other %d sites use `%s`: rows the others match (e.g. NULL standing for no condition) are not matched here, so one read method of one backend returns fewer tuples than its siblings", s.expr, best, major))
+	}
+}
+
+// ruleExcludedUsersForwarded: ListUsers operators pass along, with every user they emit, the users an operand has
+// explicitly excluded; a parent intersection/exclusion needs them to cut a wildcard.  A function that consumes its
+// children's excludedUsers must hand excludedUsers on with what it emits.
+func ruleExcludedUsersForwarded(e *Engine, r *Reporter) {
+	r.Rule("excluded-users-forwarded", "every ListUsers operator that reads the excludedUsers of the users its operands found sets excludedUsers on every foundUser it emits itself", 2)
+	n := 0
+	for _, fn := range e.Fns {
+		if short(pkgOf(fn)) != "pkg/server/commands/listusers" || fn.Parent() != nil {
+			continue
+		}
+		reads := false
+		type lit struct {
+			at  ssa.Instruction
+			set bool
+		}
+		var lits []*lit
+		for _, g := range withClosures(fn) {
+			eachInstr(g, false, func(in ssa.Instruction) {
+				switch x := in.(type) {
+				case *ssa.Field:
+					if typeBaseName(x.X.Type()) == "foundUser" && fieldName(x.X.Type(), x.Field) == "excludedUsers" {
+						reads = true
+					}
+				case *ssa.FieldAddr:
+					if typeBaseName(derefType(x.X.Type())) != "foundUser" || fieldName(x.X.Type(), x.Field) != "excludedUsers" {
+						return
+					}
+					for _, ref := range *x.Referrers() {
+						if u, ok := ref.(*ssa.UnOp); ok && u.Op == token.MUL {
+							reads = true
+						}
+					}
+				case *ssa.Alloc:
+					if typeBaseName(derefType(x.Type())) != "foundUser" {
+						return
+					}
+					l := &lit{at: in}
+					stores := 0
+					for _, ref := range *x.Referrers() {
+						fa, ok := ref.(*ssa.FieldAddr)
+						if !ok {
+							continue
+						}
+						for _, r2 := range *fa.Referrers() {
+							if st, ok := r2.(*ssa.Store); ok && st.Addr == ssa.Value(fa) {
+								stores++
+								if fieldName(x.Type(), fa.Field) == "excludedUsers" {
+									l.set = true
+								}
+							}
+						}
+					}
+					if stores > 0 {
+						lits = append(lits, l)
+					}
+				}
+			})
+		}
+		if !reads || len(lits) == 0 {
+			continue
+		}
+		for i, l := range lits {
+			n++
+			r.Check(l.set, fmt.Sprintf("%s | foundUser literal #%d", fname(fn), i), e.instrPos(l.at), "carries excludedUsers", "this operator collects the users its operands excluded but emits a foundUser without excludedUsers: a parent operator can no longer tell which concrete users a wildcard result does not cover, and ListUsers returns a user Check denies")
+		}
+	}
+	if n == 0 {
+		blind("excluded-users-forwarded: no operator reading excludedUsers and emitting foundUser found")
 	}
 }
